@@ -130,7 +130,26 @@ func genPassthrough(r *rand.Rand, i int) J {
 			prog = append(prog, nText(pick(r, []string{" ", "\n", " \n ", "\t"})), J{"t": "trimL"}, J{"t": "assign", "name": bs("zq"), "e": eLit(vInt(1))})
 		}
 	}
-	return J{"kind": "render", "prog": prog, "env": env}
+	c := J{"kind": "render", "prog": prog, "env": env}
+	if r.Intn(6) == 0 {
+		// the same text reaches the output unchanged when it comes from an included file (on disk or registered with
+		// the engine) - down to the line end the file finishes with
+		body := append([]any{}, prog...)
+		if r.Intn(2) == 0 {
+			body = append(body, nText(pick(r, []string{"\n", "\r\n", "\n\n", " \n"})))
+		}
+		if _, err := newPrinter(spellFromJSON(nil)).Template(body); err == nil {
+			c["prog"] = []any{J{"t": "include", "e": eLit(vStr("p.liq"))}}
+			c["path"] = bs("d/t.liq")
+			c["usedir"] = true
+			if r.Intn(2) == 0 {
+				c["files"] = []any{[]any{bs("d/p.liq"), body}}
+			} else {
+				c["cache"] = []any{[]any{bs("d/p.liq"), body}}
+			}
+		}
+	}
+	return c
 }
 
 func genScanBytes(r *rand.Rand, i int) J {
